@@ -3,11 +3,16 @@ use crate::instr::*;
 use crate::mapdrv::{apply_directive, disarm, hex, parse_u64};
 use hashbrown::hash_table::Entry;
 use hashbrown::HashTable;
+use rayon::prelude::*;
 use std::fmt::Write as _;
+use std::sync::atomic::{AtomicUsize, Ordering};
+use std::sync::Mutex;
 use std::panic::{catch_unwind, AssertUnwindSafe};
 
 pub trait ElemT: Send + Sync + 'static {
     const DROP: bool;
+    /// the element has a value field (`set_val` is not a no-op)
+    const HAS_VAL: bool = true;
     fn mk(id: u64, stamp: u64, val: u64) -> Self;
     fn id(&self) -> u64;
     fn stamp(&self) -> u64;
@@ -93,6 +98,7 @@ plain_elem!(Ta64, repr(align(64)) ; );
 pub struct T1(u8);
 impl ElemT for T1 {
     const DROP: bool = false;
+    const HAS_VAL: bool = false;
     fn mk(id: u64, _s: u64, _v: u64) -> Self { T1(id as u8) }
     fn id(&self) -> u64 { self.0 as u64 }
     fn stamp(&self) -> u64 { 0 }
@@ -103,6 +109,7 @@ impl ElemT for T1 {
 pub struct T2(u16);
 impl ElemT for T2 {
     const DROP: bool = false;
+    const HAS_VAL: bool = false;
     fn mk(id: u64, _s: u64, _v: u64) -> Self { T2(id as u16) }
     fn id(&self) -> u64 { self.0 as u64 }
     fn stamp(&self) -> u64 { 0 }
@@ -114,6 +121,7 @@ impl ElemT for T2 {
 pub struct Tz;
 impl ElemT for Tz {
     const DROP: bool = false;
+    const HAS_VAL: bool = false;
     fn mk(_id: u64, _s: u64, _v: u64) -> Self { Tz }
     fn id(&self) -> u64 { 0 }
     fn stamp(&self) -> u64 { 0 }
@@ -268,6 +276,38 @@ fn pred_tick() {
     if p {
         std::panic::panic_any(HvPanic("pred"));
     }
+}
+
+fn pool_of(threads: u64) -> rayon::ThreadPool {
+    rayon::ThreadPoolBuilder::new().num_threads(threads as usize).build().unwrap()
+}
+
+fn sorted_elems<T: ElemT>(m: &Tab<T>) -> Vec<(u64, u64, u64)> {
+    let mut v: Vec<(u64, u64, u64)> = m.iter().map(|e| (e.id(), e.stamp(), e.val())).collect();
+    v.sort();
+    v
+}
+
+fn list3(l: &[(u64, u64, u64)]) -> String {
+    if l.is_empty() {
+        return "list -".into();
+    }
+    format!("list {}", l.iter().map(|(k, s, v)| format!("{}:{}:{}", k, s, v)).collect::<Vec<_>>().join(","))
+}
+
+/// `small` (sorted) is contained in `big` (sorted) with multiplicities
+fn is_sub_multiset(small: &[(u64, u64, u64)], big: &[(u64, u64, u64)]) -> bool {
+    let mut j = 0;
+    for e in small {
+        while j < big.len() && big[j] < *e {
+            j += 1;
+        }
+        if j >= big.len() || big[j] != *e {
+            return false;
+        }
+        j += 1;
+    }
+    true
 }
 
 fn do_op<T: ElemT>(m: &mut Tab<T>, w: &[&str], chk: &mut Vec<String>, held: &mut Held) -> String {
@@ -502,6 +542,109 @@ fn do_op<T: ElemT>(m: &mut Tab<T>, w: &[&str], chk: &mut Vec<String>, held: &mut
                 chk.push("iter_mut disagrees with iter".into());
             }
             format!("list {}", if got.is_empty() { "-".to_string() } else { got.join(",") })
+        }
+        // ---------------- rayon (C19) ----------------
+        "tpar_iter" => {
+            let pool = pool_of(n(1));
+            let mut got: Vec<(u64, u64, u64)> = pool.install(|| m.par_iter().map(|e| (e.id(), e.stamp(), e.val())).collect());
+            got.sort();
+            if got != sorted_elems(m) {
+                chk.push("tpar_iter: the parallel iterator does not deliver every element exactly once".into());
+            }
+            list3(&got)
+        }
+        "tpar_iter_mut" => {
+            let pool = pool_of(n(1));
+            let add = n(2);
+            let mut want = sorted_elems(m);
+            let visits = AtomicUsize::new(0);
+            let seen: Mutex<Vec<(u64, u64, u64)>> = Mutex::new(Vec::new());
+            pool.install(|| {
+                m.par_iter_mut().for_each(|e| {
+                    visits.fetch_add(1, Ordering::SeqCst);
+                    seen.lock().unwrap().push((e.id(), e.stamp(), e.val()));
+                    let nv = e.val().wrapping_add(add);
+                    e.set_val(nv);
+                })
+            });
+            let mut seen = seen.into_inner().unwrap();
+            seen.sort();
+            if visits.load(Ordering::SeqCst) != m.len() || seen != want {
+                chk.push(format!("tpar_iter_mut: the parallel iterator visited {} elements of {} / not every element exactly once", visits.load(Ordering::SeqCst), m.len()));
+            }
+            // what the sequential iter_mut would have left behind
+            if T::HAS_VAL {
+                for e in want.iter_mut() {
+                    e.2 = e.2.wrapping_add(add);
+                }
+                want.sort();
+            }
+            if sorted_elems(m) != want {
+                chk.push("tpar_iter_mut: the contents after the parallel iter_mut differ from the sequential iter_mut".into());
+            }
+            "unit".into()
+        }
+        "tinto_par_iter" => {
+            let pool = pool_of(n(1));
+            let want = sorted_elems(m);
+            let old = std::mem::replace(m, HashTable::new_in(Ledger));
+            let got: Vec<T> = pool.install(|| old.into_par_iter().collect());
+            let mut l: Vec<(u64, u64, u64)> = got.iter().map(|e| (e.id(), e.stamp(), e.val())).collect();
+            l.sort();
+            if l != want {
+                chk.push("tinto_par_iter: the parallel iterator does not deliver every element exactly once".into());
+            }
+            held.push(Box::new(got));
+            list3(&l)
+        }
+        "tpar_drain" => {
+            // a consumer that accepts at most `take` elements and then short-circuits; whatever it is
+            // handed after that is not kept (the consumer drops it)
+            let pool = pool_of(n(1));
+            let take = n(2) as usize;
+            let want = sorted_elems(m);
+            let alloc_before = m.verif_dump().alloc;
+            let count = AtomicUsize::new(0);
+            let got: Mutex<Vec<T>> = Mutex::new(Vec::new());
+            let extra: Mutex<Vec<(u64, u64, u64)>> = Mutex::new(Vec::new());
+            pool.install(|| {
+                let _ = m.par_drain().try_for_each(|e| {
+                    let c = count.fetch_add(1, Ordering::SeqCst);
+                    if c < take {
+                        got.lock().unwrap().push(e);
+                    } else {
+                        extra.lock().unwrap().push((e.id(), e.stamp(), e.val()));
+                    }
+                    if c + 1 >= take {
+                        Err(())
+                    } else {
+                        Ok(())
+                    }
+                });
+            });
+            let got = got.into_inner().unwrap();
+            let mut l: Vec<(u64, u64, u64)> = got.iter().map(|e| (e.id(), e.stamp(), e.val())).collect();
+            l.sort();
+            let mut all = l.clone();
+            all.extend(extra.into_inner().unwrap());
+            all.sort();
+            if !is_sub_multiset(&all, &want) {
+                chk.push(format!("tpar_drain: the parallel drain delivered {:?}, not a sub-multiset of the stored {:?}", all, want));
+            }
+            if take >= want.len() && all != want {
+                chk.push("tpar_drain: the parallel drain was consumed completely but did not deliver every element exactly once".into());
+            }
+            if l.len() > take {
+                chk.push("tpar_drain: more elements received than accepted".into());
+            }
+            if !m.is_empty() || m.len() != 0 || m.iter().next().is_some() {
+                chk.push("tpar_drain: the table is not empty after the parallel drain".into());
+            }
+            if m.verif_dump().alloc != alloc_before {
+                chk.push("tpar_drain: the parallel drain did not keep the allocation".into());
+            }
+            held.push(Box::new(got));
+            list3(&l)
         }
         "tlen" => format!("num {}", m.len()),
         "tcapacity" => format!("num {}", m.capacity()),
